@@ -950,20 +950,22 @@ func genBig(r *Rng, kind string) rtcp.Packet {
 		}
 		return v
 	case "TWCC":
+		// the type keeps its sizes in 16 bits: the largest values it can hold are just under 65536 octets
 		t := &rtcp.TransportLayerCC{SenderSSRC: uint32(r.Bits(32, 32)), MediaSSRC: uint32(r.Bits(32, 32)),
 			BaseSequenceNumber: uint16(r.Bits(16, 16)), ReferenceTime: uint32(r.Bits(24, 24)), FbPktCount: uint8(r.Bits(8, 8))}
-		count := r.Pick(40000, 65535, 65534)
+		count := r.Pick(2037, 4076, 5000, 20000, 32000, 60000)
+		dtype := uint16(1)
+		if count <= 20000 && r.Bool() {
+			dtype = 2
+		}
 		left := count
 		for left > 0 {
-			n := 8191
-			if n > left {
-				n = left
-			}
-			t.PacketChunks = append(t.PacketChunks, &rtcp.RunLengthChunk{Type: 0, PacketStatusSymbol: 2, RunLength: uint16(n)})
+			n := minInt(left, r.Pick(8191, 8191, 1, 2, 4096))
+			t.PacketChunks = append(t.PacketChunks, &rtcp.RunLengthChunk{Type: 0, PacketStatusSymbol: dtype, RunLength: uint16(n)})
 			left -= n
 		}
 		for i := 0; i < count; i++ {
-			t.RecvDeltas = append(t.RecvDeltas, genDelta(r, 2, false))
+			t.RecvDeltas = append(t.RecvDeltas, genDelta(r, dtype, false))
 		}
 		t.PacketStatusCount = uint16(count)
 		size := t.MarshalSize()
